@@ -246,6 +246,12 @@ def raw_to_support(steps, energy):
 # monitor to file (support file, converge file, raw file)
 ## FIXME: 'converge' and 'raw' files are virtually unused and unsupported
 
+def _builtins(x):
+  "recursively convert numpy scalars and arrays to builtin types"
+  if hasattr(x, 'tolist'): return x.tolist()
+  if isinstance(x, (list, tuple)): return type(x)(_builtins(i) for i in x)
+  return x
+
 def write_raw_file(mon,log_file='paramlog.py',**kwds):
   """write parameter and solution trajectory to a log file in 'raw' format
 
@@ -265,6 +271,8 @@ def write_raw_file(mon,log_file='paramlog.py',**kwds):
   """
   if isNull(mon): return  #XXX: throw error? warning? ???
   steps, energy, ids = read_monitor(mon, id=True) 
+  # numpy scalars don't have a repr that can be read back
+  steps, energy = _builtins(steps), _builtins(energy)
   if not len(ids): #XXX: is manipulating ids a good idea?
     ids = None
   elif ids.count(ids[0]) == len(ids): #XXX: generally, all None or all ints
